@@ -180,8 +180,9 @@ def check(run, F, tier):
         return bool(rem) and conn.truth(p, rem[0]) is True
 
     def ends(p):
-        here = [e for _, e in conn.calls(p, "PacketIdManager::<T>::is_used_id") if e[5][0] == fr["path"]]
-        return bool(here)
+        # the exchange ends when the handler (itself or through a private helper, but not the nested PUBREL send handler)
+        # gives the packet identifier back
+        return bool(conn.calls_outside(p, "PacketIdManager::<T>::is_used_id") or conn.calls_outside(p, "PacketIdManager::<T>::release_id"))
     rcv = code_sets(fr, ends, matched)
     for d, name in sorted(dom.items()):
         s = snd.get(name)
